@@ -43,17 +43,18 @@ pub fn direct_checks(o: &Obs) -> Option<String> {
 pub fn run(ctx: &Ctx) -> i32 {
     let want = Want::all();
     let shapes: [(usize, usize); 4] = [(2, 3), (3, 2), (1, 4), (4, 1)];
-    // variant: 0 plain, 1 one linked cell, 2 one tilemap layer, 3 one hidden layer, 4 non-Normal blend, 5 hidden group parent
+    // variant: 0 plain, 1 one linked cell, 2 one tilemap layer, 3 one hidden layer, 4 non-Normal blend, 5 hidden group parent,
+    // 6 every layer at opacity 255 with cels fully inside the canvas and reduced cel opacity
     let mut cases = Vec::new();
     for (si, (nf, nl)) in shapes.iter().enumerate() {
         for m in 0..(1u32 << (nf * nl)) {
-            for variant in 0..6 {
+            for variant in 0..7 {
                 cases.push((si, m, variant));
             }
         }
     }
     let fam = "cells";
-    ctx.family(fam, cases.len() as u64, "shapes (frames,layers) in {(2,3),(3,2),(1,4),(4,1)}: every subset of the F*L cells present, each with unique offset, pixels, opacity and user-data record; variants: plain / one linked cell / a tilemap layer / a hidden layer / a non-Normal blend mode / a hidden group parent. Three routes must agree; single-visible-layer frames must equal the cel image; tilemap image must equal its cel image (checked directly on the library's outputs and against the model)", true);
+    ctx.family(fam, cases.len() as u64, "shapes (frames,layers) in {(2,3),(3,2),(1,4),(4,1)}: every subset of the F*L cells present, each with unique offset, pixels, opacity and user-data record; variants: plain / one linked cell / a tilemap layer / a hidden layer / a non-Normal blend mode / a hidden group parent / all layers at opacity 255 with in-canvas cels of reduced cel opacity. Three routes must agree; single-visible-layer frames must equal the cel image; tilemap image must equal its cel image (checked directly on the library's outputs and against the model)", true);
     let fmt = Fmt::Rgba;
     cases.par_iter().for_each(|(si, m, variant)| {
         let case = || format!("shape={:?} present={:b} variant={}", shapes[*si], m, variant);
@@ -76,7 +77,7 @@ pub fn run(ctx: &Ctx) -> i32 {
         }
         for l in 0..nl {
             let mut ly = if tm_layer == Some(l) { Layer::tilemap(&format!("l{}", l), 4) } else { Layer::image(&format!("l{}", l)) };
-            ly.opacity = 255 - 10 * l as u8;
+            ly.opacity = if *variant == 6 { 255 } else { 255 - 10 * l as u8 };
             if *variant == 3 && l == 0 {
                 ly.flags = 2;
             }
@@ -96,7 +97,7 @@ pub fn run(ctx: &Ctx) -> i32 {
                 }
                 let li = l as u16 + shift;
                 let uid = (fr * nl + l) as u32;
-                let (x, y, op) = (fr as i16 - 1, l as i16 - 1, 255 - uid as u8 * 3);
+                let (x, y, op) = if *variant == 6 { ((fr % 3) as i16, (l % 2) as i16, 200 - uid as u8 * 9) } else { (fr as i16 - 1, l as i16 - 1, 255 - uid as u8 * 3) };
                 let body = if tm_layer == Some(l) {
                     tm_cel(li, x * 2, y, op, 2, 2, vec![1 + uid % 3, 2, 3, uid % 4])
                 } else if *variant == 1 && first_real.map_or(false, |(rf, rl)| rl == l && rf != fr) {
@@ -119,6 +120,27 @@ pub fn run(ctx: &Ctx) -> i32 {
         }
     });
     ctx.sample(json!({"family": fam, "case": "shape=(2, 3) present=101101 variant=1", "meaning": "2 frames x 3 layers, cells (f,l) present where bit f*3+l is set; one of them is a linked cel"}));
+
+    // large indices: more than 256 frames / layers, so truncated or packed coordinates alias
+    if ctx.wants_family("wide") {
+        let shapes: [(usize, usize); 4] = [(2, 300), (300, 2), (257, 3), (3, 258)];
+        let cases: Vec<(usize, u32)> = (0..shapes.len()).flat_map(|s| (0..4u32).map(move |p| (s, p))).collect();
+        ctx.family("wide", cases.len() as u64, "shapes (frames,layers) in {(2,300),(300,2),(257,3),(3,258)} x 4 presence patterns with unique cels: indices beyond 255 in either coordinate (a coordinate truncated to 8 bits, or two coordinates packed too tightly, would alias distinct cels); three routes, images, user data vs the model and the direct checks", true);
+        cases.par_iter().for_each(|(si, p)| {
+            let case = || format!("shape={:?} pattern={}", shapes[*si], p);
+            if !ctx.wants("wide", &case) {
+                return;
+            }
+            let (nf, nl) = shapes[*si];
+            let f = gen::wide(nf, nl, *p);
+            let c = conform(ctx, "wide", &case, &f, &want);
+            if let Some(o) = &c.obs {
+                if let Some(msg) = direct_checks(o) {
+                    ctx.violation(Violation { family: "wide".into(), case: case(), sig: format!("direct:{}", sig_of(&msg)), detail: msg, bytes: None, extra: json!({}) });
+                }
+            }
+        });
+    }
 
     // the corpus files through the direct checks as well
     if ctx.wants_family("corpus-direct") {
